@@ -327,6 +327,14 @@ func (x *X) makeInput(op *Op, b *Built) (any, func()) {
 			return op.Input.ToGo(), noop
 		}
 		return RenameKeys(b.N, op.Input, "").ToGo(), noop
+	case "mapstr":
+		// the same record as a typed map[string]string (string-valued records only)
+		in := RenameKeys(b.N, op.Input, "")
+		m := map[string]string{}
+		for _, kv := range in.M {
+			m[kv.K] = scalarString(kv.V)
+		}
+		return m, noop
 	case "zjson":
 		body := op.IOBody(b, "json")
 		rd := NewSimReader([]byte(body), op.IO, x.Faults)
